@@ -10,7 +10,7 @@ from ..core import HarnessError, Violation
 ID = "C02"
 LEVEL = "exploration"
 RULE = ("Hypothesis draws any declarable SchemaSpec (13 types, all list forms x len forms, dicts "
-        "with optional/relaxed keys, any, alias; depth<=3; satisfiable or not) and a value from "
+        "with optional/relaxed keys (`...: ...` at any position), any, alias, and schemas combined with | + make_required; depth<=3; satisfiable or not) and a value from "
         "four sources: built to conform (independently of d42's generator), conforming with one "
         "spec-aware near-miss (min-1, max+1, len+-1, char outside alphabet, broken substring, "
         "dropped/extra key, shifted window...), one generic structural step at a drawn depth, or "
@@ -27,7 +27,8 @@ BUDGET = {"quick": (1500, 4), "thorough": (20000, 16)}
 
 @st.composite
 def _case(draw):
-    spec = draw(specs.spec_strategy(depth=draw(st.integers(0, 3)), sat=draw(st.booleans())))
+    spec = draw(specs.spec_strategy(depth=draw(st.integers(0, 3)), sat=draw(st.booleans()),
+                                    derived=draw(st.integers(0, 3)) == 0))
     src = draw(st.sampled_from(["conforming", "near", "near", "perturb", "unrelated"]))
     applied = None
     try:
